@@ -1,0 +1,27 @@
+//go:build verif
+
+package types
+
+import "github.com/siyul-park/uniflow/pkg/encoding"
+
+// VerifNewDecoder builds a decoder with the same compilers as the global Decoder but with empty
+// caches, so that verification harnesses can observe cold groups.
+func VerifNewDecoder() *encoding.DecodeAssembler[Value, any] {
+	d := encoding.NewDecodeAssembler[Value, any]()
+	d.Add(newPointerDecoder(d))
+	d.Add(newMapDecoder(d))
+	d.Add(newSliceDecoder(d))
+	d.Add(newJSONDecoder(d))
+	d.Add(newUintegerDecoder())
+	d.Add(newIntegerDecoder())
+	d.Add(newFloatDecoder())
+	d.Add(newBooleanDecoder())
+	d.Add(newBufferDecoder())
+	d.Add(newBinaryDecoder())
+	d.Add(newStringDecoder())
+	d.Add(newErrorDecoder())
+	d.Add(newTimeDecoder())
+	d.Add(newDurationDecoder())
+	d.Add(newShortcutDecoder())
+	return d
+}
